@@ -19,6 +19,7 @@ RULE = (
     "str(); removal deletes exactly the named; invalid -> ValueError only; shared_atts subset of what every character has. "
     "Non-trivial: >=2 layers touching the same attribute kind, a multi-run base, or a False override."
     ' Bases are observed (all caches filled) before each layer and the terminal string of every result is judged by the SGR interpreter as well as the run attributes.'
+    ' The invalid catalogue includes mis-typed names and values (tuples, lists, dicts, sets, bytes, floats, booleans); bases with runs made only of zero-width characters; replacement text carrying escape sequences for copy_with_new_str.'
 )
 ASSUMPTIONS = [
     "wrong-case names ('RED', 'on_RED'): the code visibly intends case-insensitivity, so either working (as the lowered name) or ValueError is accepted, nothing else",
